@@ -224,3 +224,36 @@ spec fn native_ok(old: &State, new: &State) -> bool {
     &&& new.insn_meter == old.insn_meter
     &&& exists|n: nat| #[trigger] rev_w(old, new, n) && rev_ext(old, new, n)
 }
+
+// ================= rnext (C02): one backward step =================
+// a reverse log whose history consists of completed instructions: empty, or ending in a SetIp
+spec fn log_wf(log: Seq<ReverseStep>) -> bool { log.len() == 0 || log.last() is SetIp }
+
+// the state one instruction earlier, if the log ends with a completed instruction that started there
+spec fn prev_insn(s: &State) -> (State, nat) {
+    choose|p: (State, nat)| insn_rev(&p.0, s, p.1) && log_wf(p.0.log())
+}
+spec fn has_prev_insn(s: &State) -> bool {
+    insn_rev(&prev_insn(s).0, s, prev_insn(s).1) && log_wf(prev_insn(s).0.log())
+}
+
+// the state a completed instruction started in is determined by the log (up to machine state and log)
+proof fn lemma_prev_unique(a1: State, n1: nat, a2: State, n2: nat, s: State)
+    requires s.rec(), insn_rev(&a1, &s, n1), insn_rev(&a2, &s, n2), log_wf(a1.log()), log_wf(a2.log())
+    ensures a1.mach() == a2.mach(), a1.log() == a2.log()
+{
+    let m = Mach { ip: a1.ctx.ip, ..s.mach() };
+    assert(a1.ctx.ip == a2.ctx.ip);
+    let l = s.log().drop_last();
+    let c = s.bases();
+    reveal_with_fuel(undo_n, 2);
+    if n1 <= n2 {
+        lemma_undo_n_add(m, l, c, n1, (n2 - n1) as nat);
+        assert(n1 + (n2 - n1) as nat == n2);
+        if n2 > n1 { assert(undo_n(a1.mach(), a1.log(), c, (n2 - n1) as nat) is None); }
+    } else {
+        lemma_undo_n_add(m, l, c, n2, (n1 - n2) as nat);
+        assert(n2 + (n1 - n2) as nat == n1);
+        assert(undo_n(a2.mach(), a2.log(), c, (n1 - n2) as nat) is None);
+    }
+}
